@@ -350,3 +350,73 @@ def explore_leaves(crate, fn, opaque=(), args=None, max_tests=7, frames=None, mo
             go(s2, depth + 1)
     go(dict(subst0 or {}), 0)
     return leaves if state["ok"] else None
+
+
+def frange_facts(t, env, facts, assume_not_nan=True):
+    """frange, with every sub-term's range intersected with what the comparisons among `facts` say
+    about it (a failed comparison is read as its negation when the inputs are known not to be NaN)"""
+    def refine(x, r):
+        lo, hi = r
+        for op, a, b, pos in cmp_facts(facts):
+            if a == x and cval(b) is not None: c = cval(b)
+            elif b == x and cval(a) is not None: c = cval(a); op = SWAP[op]
+            else: continue
+            if not pos:
+                if not assume_not_nan: continue
+                op = {"lt": "ge", "le": "gt", "gt": "le", "ge": "lt", "eq": "ne", "ne": "eq"}[op]
+            if op in ("le", "lt"): hi = min(hi, c)
+            elif op in ("ge", "gt"): lo = max(lo, c)
+            elif op == "eq": lo, hi = max(lo, c), min(hi, c)
+        return (lo, hi)
+    return frange(t, env, 0, refine)
+
+
+def frange(t, env, depth=0, refine=None):
+    r = _frange(t, env, depth, refine)
+    if r is not None and refine is not None: r = refine(t, r)
+    return r
+
+
+def _frange(t, env, depth=0, refine=None):
+    """Range of a float term over parameter ranges (env: term -> (lo, hi)), in real arithmetic, for
+    the handful of operations range reductions are written with (+ - * / by constants, `%` by a
+    positive constant — the sign of the result follows the dividend —, abs, min, max, neg).
+    None if the term contains anything else."""
+    import math
+    from mir import f64_from_bits
+    if t in env: return env[t]
+    if depth > 30: return None
+    k = t[0]
+    if k == 'c' and t[1] == 'f64':
+        v = f64_from_bits(t[2]); return (v, v)
+    if k == 'un' and t[1] == 'neg':
+        a = frange(t[3], env, depth + 1, refine); return None if a is None else (-a[1], -a[0])
+    if k == 'call' and isinstance(t[1], str):
+        nm = t[1].rsplit("::", 1)[-1]
+        args = [frange(x, env, depth + 1, refine) for x in t[2]]
+        if any(x is None for x in args): return None
+        if nm == 'abs':
+            lo, hi = args[0]
+            if lo >= 0: return (lo, hi)
+            if hi <= 0: return (-hi, -lo)
+            return (0.0, max(-lo, hi))
+        if nm == 'min' and len(args) == 2: return (min(args[0][0], args[1][0]), min(args[0][1], args[1][1]))
+        if nm == 'max' and len(args) == 2: return (max(args[0][0], args[1][0]), max(args[0][1], args[1][1]))
+        return None
+    if k == 'op' and t[2] == 'f64':
+        a, b = frange(t[3], env, depth + 1, refine), frange(t[4], env, depth + 1, refine)
+        if a is None or b is None: return None
+        op = t[1]
+        if op == 'add': return (a[0] + b[0], a[1] + b[1])
+        if op == 'sub': return (a[0] - b[1], a[1] - b[0])
+        if op == 'mul':
+            ps = [x * y for x in a for y in b if not (math.isinf(x) and y == 0) and not (math.isinf(y) and x == 0)]
+            return (min(ps), max(ps)) if ps else None
+        if op == 'rem' and b[0] == b[1] and b[0] > 0:
+            c = b[0]
+            if a[0] >= 0: return (0.0, c) if a[1] >= c else a
+            if a[1] <= 0: return (-c, 0.0) if a[0] <= -c else a
+            return (-c, c)
+        if op == 'div' and b[0] == b[1] and b[0] != 0:
+            xs = [a[0] / b[0], a[1] / b[0]]; return (min(xs), max(xs))
+    return None
